@@ -1031,9 +1031,9 @@ impl World for CodecWorld {
     }
     fn runs(&self, ask: Ask) -> u64 {
         if ask.thorough {
-            4_000_000
+            20_000_000
         } else {
-            50_000
+            400_000
         }
     }
     fn components(&self) -> (Vec<&'static str>, Vec<&'static str>) {
